@@ -112,7 +112,7 @@ def emit (k : Kernel) (src dst : SockAddr) (sg : Seg) : Kernel :=
   { k with outbound := k.outbound ++ [{ src := src.ip, dst := dst.ip, seg := sg }] }
 
 def initialSequence (k : Kernel) : Kernel × Nat :=
-  ({ k with tcpIsn := wadd k.tcpIsn isnStep }, k.tcpIsn)
+  ({ k with tcpIsn := wadd isnStep k.tcpIsn }, k.tcpIsn)
 
 def boundEndpoint (s : Socket) : SockAddr :=
   match s.bound with
@@ -445,8 +445,8 @@ def onClose (k : Kernel) (fd : Nat) : Kernel × Bool :=
 
 /-- `Kernel::close` (mod.rs:199). -/
 def close (k : Kernel) (fd : Nat) : Kernel :=
-  let (k1, reap) := k.onClose fd
-  if reap then k1.remove fd else k1
+  let r := k.onClose fd
+  if r.2 then r.1.remove fd else r.1
 
 def reapVictim (s : Socket) : Bool :=
   s.fdClosed && (match s.tcb with
@@ -459,34 +459,41 @@ def reapClosed (k : Kernel) : Kernel :=
 
 /-! ### Retransmit, segmentation, egress (tcp.rs:1118-1308, mod.rs:608) -/
 
-/-- `check_retx` (tcp.rs:1118). -/
-def checkRetx (cfg : Cfg) (k : Kernel) : Kernel :=
-  let cands := k.sockets.filterMap fun e =>
+def retxCands (k : Kernel) : List Nat :=
+  k.sockets.filterMap fun e =>
     match e.2.tcb with
     | some t => if t.retxCandidate then some e.1 else none
     | none => none
-  -- pass 1: counters / rewind, collecting the two follow-up lists
-  let (k1, resend, aborts) := cands.foldl (fun (acc : Kernel × List Nat × List Nat) fd =>
-      let (k, rs, ab) := acc
-      match k.getTcb fd with
-      | none => acc
-      | some t =>
-        let (t', a) := t.retxTick cfg.retxThreshold cfg.retxMax
-        let k' := k.setTcb fd t'
-        match a with
-        | .none => (k', rs, ab)
-        | .resendHandshake => (k', rs ++ [fd], ab)
-        | .abort => (k', rs, ab ++ [fd])) (k, [], [])
-  let k2 := resend.foldl (fun k fd =>
-      match k.getSock fd with
-      | none => k
-      | some s =>
-        match s.tcb with
-        | none => k
-        | some t =>
-          let l := boundEndpoint s
-          k.emit l t.peer (t.handshakeSeg l.port)) k1
-  aborts.foldl (fun k fd => abortWith cfg k fd false) k2
+
+/-- First loop of `check_retx`: counters / rewind per candidate, collecting the fds whose handshake
+    segment is to be re-emitted and the fds to abort. -/
+def retxPass1Step (cfg : Cfg) (acc : Kernel × List Nat × List Nat) (fd : Nat) : Kernel × List Nat × List Nat :=
+  match acc.1.getTcb fd with
+  | none => acc
+  | some t =>
+    let r := t.retxTick cfg.retxThreshold cfg.retxMax
+    let k' := acc.1.setTcb fd r.1
+    match r.2 with
+    | .none => (k', acc.2.1, acc.2.2)
+    | .resendHandshake => (k', acc.2.1 ++ [fd], acc.2.2)
+    | .abort => (k', acc.2.1, acc.2.2 ++ [fd])
+
+/-- `emit_handshake` (tcp.rs:1183). -/
+def emitHandshake (k : Kernel) (fd : Nat) : Kernel :=
+  match k.getSock fd with
+  | none => k
+  | some s =>
+    match s.tcb with
+    | none => k
+    | some t =>
+      let l := boundEndpoint s
+      k.emit l t.peer (t.handshakeSeg l.port)
+
+/-- `check_retx` (tcp.rs:1118). -/
+def checkRetx (cfg : Cfg) (k : Kernel) : Kernel :=
+  let r := k.retxCands.foldl (retxPass1Step cfg) (k, [], [])
+  let k2 := r.2.1.foldl emitHandshake r.1
+  r.2.2.foldl (fun k fd => abortWith cfg k fd false) k2
 
 /-- `segment_one` (tcp.rs:1249). -/
 def segmentOne (cfg : Cfg) (k : Kernel) (fd : Nat) : Kernel :=
@@ -497,9 +504,9 @@ def segmentOne (cfg : Cfg) (k : Kernel) (fd : Nat) : Kernel :=
     | none => k
     | some t =>
       let l := boundEndpoint s
-      let (t', segs) := Tcb.segLoop (mssFor cfg l.ip) cfg.recvCap l.port (t.sendBuf.length + 2) t []
-      let k1 := k.setSock fd { s with tcb := some t' }
-      { k1 with outbound := k1.outbound ++ segs.map fun sg => { src := l.ip, dst := t.peer.ip, seg := sg } }
+      let r := Tcb.segLoop (mssFor cfg l.ip) cfg.recvCap l.port (t.sendBuf.length + 2) t []
+      let k1 := k.setSock fd { s with tcb := some r.1 }
+      { k1 with outbound := k1.outbound ++ r.2.map fun sg => { src := l.ip, dst := t.peer.ip, seg := sg } }
 
 /-- `segment_all` (tcp.rs:1219). -/
 def segmentAll (cfg : Cfg) (k : Kernel) : Kernel :=
@@ -509,6 +516,11 @@ def segmentAll (cfg : Cfg) (k : Kernel) : Kernel :=
     | none => none
   cands.foldl (segmentOne cfg) k
 
+/-- One packet of the drain in `Kernel::egress`: local destinations fold back through `deliver`,
+    the rest leave the host. -/
+def drainStep (cfg : Cfg) (acc : Kernel × List Packet) (p : Packet) : Kernel × List Packet :=
+  if acc.1.isLocal p.dst then (deliver cfg acc.1 p, acc.2) else (acc.1, acc.2 ++ [p])
+
 /-- The `loop` of `Kernel::egress` (mod.rs:613-626) with fuel; returns the packets leaving the host. -/
 def egressLoop (cfg : Cfg) : Nat → Kernel → List Packet → Kernel × List Packet
   | 0, k, out => (k, out)
@@ -516,11 +528,8 @@ def egressLoop (cfg : Cfg) : Nat → Kernel → List Packet → Kernel × List P
     let k1 := segmentAll cfg k
     if k1.outbound.isEmpty then (k1, out)
     else
-      let drained := k1.outbound
-      let k2 := { k1 with outbound := [] }
-      let (k3, out') := drained.foldl (fun (acc : Kernel × List Packet) p =>
-          if acc.1.isLocal p.dst then (deliver cfg acc.1 p, acc.2) else (acc.1, acc.2 ++ [p])) (k2, out)
-      egressLoop cfg fuel k3 out'
+      let r := k1.outbound.foldl (drainStep cfg) ({ k1 with outbound := [] }, out)
+      egressLoop cfg fuel r.1 r.2
 
 /-- Fuel for `egressLoop`: every iteration but the last moves at least one queued packet or buffered
     byte (for `mss ≥ 1`). -/
@@ -533,8 +542,8 @@ def egressFuel (k : Kernel) : Nat :=
 /-- `Kernel::egress` (mod.rs:608). -/
 def egress (cfg : Cfg) (k : Kernel) : Kernel × List Packet :=
   let k0 := checkRetx cfg k
-  let (k1, out) := egressLoop cfg (egressFuel k0) k0 []
-  (reapClosed k1, out)
+  let r := egressLoop cfg (egressFuel k0) k0 []
+  (reapClosed r.1, r.2)
 
 end Kernel
 end TV.NetTcp
